@@ -214,7 +214,9 @@ def make_root(name):
     return pg.Dict(l=fixtures.Leaf(1), n=pg.List([fixtures.Leaf(2), pg.Dict(z=fixtures.Leaf(3))]))
   if name == 'withtuple':
     return pg.Dict(t=(('adam', pg.Dict(lr=0)), ('sgd', pg.Dict(lr=1))), u=(pg.List([1]), 2),
-                   l=pg.List([((pg.Dict(z=0),),)]))
+                   l=pg.List([((pg.Dict(z=0),),)]),
+                   # below a tuple: a symbolic container that itself holds containers and a mutable plain leaf
+                   v=(pg.Dict(inner=pg.List([pg.Dict(k=0)]), leaf=fixtures.Leaf(1)), [pg.Dict(w=fixtures.Leaf(2))]))
   if name == 'unsealed_default_sealed':
     inner = fixtures.SealedByDefault(x=pg.Dict(q=0), items=[pg.Dict(r=1)]).seal(False)
     return pg.Dict(a=inner, b=fixtures.SealedByDefault(x=1))
